@@ -727,32 +727,6 @@ example : extrudeScalar [⟨0, 0, 0⟩, ⟨1, 0, 0⟩, ⟨1, 1, 0⟩, ⟨0, 1, 0
 
 /-! ### a third surface on a projected edge -/
 
-theorem length_insertSorted_not_mem (l : String) : ∀ ls : List String, l ∉ ls → (insertSorted l ls).length = ls.length + 1 := by
-  intro ls
-  induction ls with
-  | nil => intro _; rfl
-  | cons x xs ih =>
-    intro hn
-    have hx : l ≠ x := fun h => hn (by simp [h])
-    have hxs : l ∉ xs := fun h => hn (by simp [h])
-    unfold insertSorted
-    split
-    · simp
-    · simp only [hx, if_false, List.length_cons, ih hxs]
-
-theorem length_insertSorted_bounds (l : String) : ∀ ls : List String,
-    1 ≤ (insertSorted l ls).length ∧ (insertSorted l ls).length ≤ ls.length + 1 := by
-  intro ls
-  induction ls with
-  | nil => simp [insertSorted]
-  | cons x xs ih =>
-    unfold insertSorted
-    split
-    · simp
-    · split
-      · simp
-      · simp only [List.length_cons]; omega
-
 /-- **`Project.add_label` / `check_length`**: an edge slot that already holds two surfaces refuses every further surface
     that is not one of the two (`EdgeCreationError`: blockMesh projects an edge to one surface or to the intersection of two),
     and a slot holding at most one surface accepts any label — for every operation state, slot and label; so
@@ -778,5 +752,109 @@ example :
     let o2 := (({} : Op).projectEdge 0 1 "g1").bind (fun o => o.projectEdge 1 0 "g2")
     (o2.map (fun o => o.slotLabels (.bottom 0))) = some ["g1", "g2"] ∧ (o2.bind (fun o => o.projectEdge 0 1 "g3")) = none ∧
       ((o2.bind (fun o => o.projectEdge 0 1 "g2")).map (fun o => o.slotLabels (.bottom 0))) = some ["g1", "g2"] := by decide
+
+/-! ### Round 6d: a revolved block is right-handed -/
+
+/-- the unit cube has Jacobian 1 at all eight corners (the neighbour table is in right-handed order) -/
+example : cornerNbrs.map (cornerJac (Aff.hex ⟨⟨1, 0, 0⟩, ⟨0, 1, 0⟩, ⟨0, 0, 1⟩, ⟨0, 0, 0⟩⟩).pts) = [1, 1, 1, 1, 1, 1, 1, 1] := by
+  decide +kernel
+
+/-- **`Revolve` about the x-axis of a face in the half-plane z = 0, y > 0** (the axisymmetric set-up of `Wedge` and of every
+    revolved shape): for every sweep angle in (0, π) — any `c`, any `s > 0` — and every base quad whose corners are at positive
+    distance from the axis and which is convex and counter-clockwise seen from the side the sweep goes to (planar cross product
+    `A i > 0` at each corner), the Jacobian at corner `i` of the base and at corner `i + 4` of the turned face both equal
+    `A i · y i · s`, hence all eight corner Jacobians are positive: the block is right-handed at every corner.
+    (A base lying in any other half-plane through any other axis is the image of this one under an isometry; that transport
+    is not proved.) -/
+theorem T_C10_revolve_right_handed (x0 y0 x1 y1 x2 y2 x3 y3 c s : Rat)
+    (hy0 : 0 < y0) (hy1 : 0 < y1) (hy2 : 0 < y2) (hy3 : 0 < y3) (hs : 0 < s)
+    (hA0 : 0 < (x1 - x0) * (y3 - y0) - (y1 - y0) * (x3 - x0)) (hA1 : 0 < (x2 - x1) * (y0 - y1) - (y2 - y1) * (x0 - x1))
+    (hA2 : 0 < (x3 - x2) * (y1 - y2) - (y3 - y2) * (x1 - x2)) (hA3 : 0 < (x0 - x3) * (y2 - y3) - (y0 - y3) * (x2 - x3)) :
+    let pts := revolvePoints [⟨x0, y0, 0⟩, ⟨x1, y1, 0⟩, ⟨x2, y2, 0⟩, ⟨x3, y3, 0⟩] c s ⟨1, 0, 0⟩ 1 V3.zero
+    cornerNbrs.map (cornerJac pts) =
+      [((x1 - x0) * (y3 - y0) - (y1 - y0) * (x3 - x0)) * y0 * s, ((x2 - x1) * (y0 - y1) - (y2 - y1) * (x0 - x1)) * y1 * s,
+       ((x3 - x2) * (y1 - y2) - (y3 - y2) * (x1 - x2)) * y2 * s, ((x0 - x3) * (y2 - y3) - (y0 - y3) * (x2 - x3)) * y3 * s,
+       ((x1 - x0) * (y3 - y0) - (y1 - y0) * (x3 - x0)) * y0 * s, ((x2 - x1) * (y0 - y1) - (y2 - y1) * (x0 - x1)) * y1 * s,
+       ((x3 - x2) * (y1 - y2) - (y3 - y2) * (x1 - x2)) * y2 * s, ((x0 - x3) * (y2 - y3) - (y0 - y3) * (x2 - x3)) * y3 * s] ∧
+    ∀ j ∈ cornerNbrs.map (cornerJac pts), 0 < j := by
+  intro pts
+  have hJ : cornerNbrs.map (cornerJac pts) =
+      [((x1 - x0) * (y3 - y0) - (y1 - y0) * (x3 - x0)) * y0 * s, ((x2 - x1) * (y0 - y1) - (y2 - y1) * (x0 - x1)) * y1 * s,
+       ((x3 - x2) * (y1 - y2) - (y3 - y2) * (x1 - x2)) * y2 * s, ((x0 - x3) * (y2 - y3) - (y0 - y3) * (x2 - x3)) * y3 * s,
+       ((x1 - x0) * (y3 - y0) - (y1 - y0) * (x3 - x0)) * y0 * s, ((x2 - x1) * (y0 - y1) - (y2 - y1) * (x0 - x1)) * y1 * s,
+       ((x3 - x2) * (y1 - y2) - (y3 - y2) * (x1 - x2)) * y2 * s, ((x0 - x3) * (y2 - y3) - (y0 - y3) * (x2 - x3)) * y3 * s] := by
+    simp only [pts, cornerNbrs, List.map_cons, List.map_nil, cornerJac, revolvePoints, List.cons_append, List.nil_append,
+      List.getD_cons_zero, List.getD_cons_succ, triple, rotateP, V3.zero, V3.dot, V3.add_x, V3.add_y, V3.add_z, V3.sub_x,
+      V3.sub_y, V3.sub_z, V3.smul_x, V3.smul_y, V3.smul_z, V3.cross_x, V3.cross_y, V3.cross_z]
+    refine List.cons_eq_cons.mpr ⟨by ring, List.cons_eq_cons.mpr ⟨by ring, List.cons_eq_cons.mpr ⟨by ring, List.cons_eq_cons.mpr ⟨by ring,
+      List.cons_eq_cons.mpr ⟨by ring, List.cons_eq_cons.mpr ⟨by ring, List.cons_eq_cons.mpr ⟨by ring, List.cons_eq_cons.mpr ⟨by ring, rfl⟩⟩⟩⟩⟩⟩⟩⟩
+  refine ⟨hJ, ?_⟩
+  rw [hJ]
+  intro j hj
+  simp only [List.mem_cons, List.not_mem_nil, or_false] at hj
+  rcases hj with h | h | h | h | h | h | h | h <;> subst h <;>
+    first
+      | exact mul_pos (mul_pos hA0 hy0) hs
+      | exact mul_pos (mul_pos hA1 hy1) hs
+      | exact mul_pos (mul_pos hA2 hy2) hs
+      | exact mul_pos (mul_pos hA3 hy3) hs
+
+/-- non-vacuity: the unit square one unit away from the axis, a quarter turn -/
+example : (0 : Rat) < (1 - 0) * (2 - 1) - (1 - 1) * (0 - 0) ∧
+    cornerNbrs.map (cornerJac (revolvePoints [⟨0, 1, 0⟩, ⟨1, 1, 0⟩, ⟨1, 2, 0⟩, ⟨0, 2, 0⟩] 0 1 ⟨1, 0, 0⟩ 1 V3.zero)) =
+      [1, 1, 2, 2, 1, 1, 2, 2] := by decide +kernel
+
+/-! ### Round 6d: `Connector` — what the alignment measure prefers -/
+
+/-- `FacePair.alignment` for unit normals `n1`, `n2` and the vector `v` between the two face centres, with `w = |v|` as a witness:
+    `dot(v/|v|, n1)³ + dot(−v/|v|, n2)³` -/
+def alignment (v n1 n2 : V3) (w : Rat) : Rat := (V3.dot v n1 / w) ^ 3 + (-(V3.dot v n2) / w) ^ 3
+
+/-- **what `Connector` looks for**: among the candidate pairs it keeps, it takes one of maximal alignment; the alignment of any
+    pair of faces is at most 2, and it is 2 exactly when both faces look squarely at each other along the line of their centres
+    (`v · n1 = |v|`, `v · n2 = −|v|`: the outward normal of the first face points at the second face's centre and vice versa).
+    So whenever such a pair is among the candidates — two axis-aligned boxes displaced along an axis with their facing sides'
+    centres on a line parallel to that axis — only such a pair can be chosen.  (That the facing pair is among the nine closest
+    pairs, and the choice when the centres are offset sideways, stay oracle-checked.) -/
+theorem T_C10_alignment_max (v n1 n2 : V3) (w : Rat) (hw : 0 < w) (hww : w * w = V3.norm2 v)
+    (h1 : V3.norm2 n1 = 1) (h2 : V3.norm2 n2 = 1) :
+    alignment v n1 n2 w ≤ 2 ∧ (alignment v n1 n2 w = 2 ↔ V3.dot v n1 = w ∧ V3.dot v n2 = -w) := by
+  have cs : ∀ n : V3, V3.norm2 n = 1 → (V3.dot v n / w) * (V3.dot v n / w) ≤ 1 := by
+    intro n hn
+    have hl : V3.norm2 v * V3.norm2 n - V3.dot v n * V3.dot v n = V3.norm2 (V3.cross v n) := by
+      simp only [V3.norm2, V3.dot, V3.cross_x, V3.cross_y, V3.cross_z]; ring
+    have hp : 0 ≤ V3.norm2 (V3.cross v n) := by
+      simp only [V3.norm2, V3.dot]
+      nlinarith [mul_self_nonneg (V3.cross v n).x, mul_self_nonneg (V3.cross v n).y, mul_self_nonneg (V3.cross v n).z]
+    have hd : V3.dot v n * V3.dot v n ≤ w * w := by rw [hn, mul_one, ← hww] at hl; linarith
+    have : V3.dot v n / w * (V3.dot v n / w) = (V3.dot v n * V3.dot v n) / (w * w) := by field_simp
+    rw [this]
+    have hpos : 0 < w * w := mul_pos hw hw
+    have hq : V3.dot v n * V3.dot v n / (w * w) * (w * w) = V3.dot v n * V3.dot v n := div_mul_cancel₀ _ (ne_of_gt hpos)
+    by_contra hc
+    have hc : 1 < V3.dot v n * V3.dot v n / (w * w) := not_le.mp hc
+    nlinarith
+  have c1 := cube_le_one (V3.dot v n1 / w) (cs n1 h1)
+  have c2 := cube_le_one (-(V3.dot v n2) / w) (by have := cs n2 h2; rw [neg_div]; nlinarith)
+  refine ⟨by unfold alignment; linarith [c1.1, c2.1], ?_⟩
+  constructor
+  · intro h
+    unfold alignment at h
+    have e1 : (V3.dot v n1 / w) ^ 3 = 1 := by linarith [c1.1, c2.1]
+    have e2 : (-(V3.dot v n2) / w) ^ 3 = 1 := by linarith [c1.1, c2.1]
+    have x1 := c1.2 e1
+    have x2 := c2.2 e2
+    have hne : w ≠ 0 := ne_of_gt hw
+    constructor
+    · field_simp at x1; linarith
+    · field_simp at x2; linarith
+  · rintro ⟨ha, hb⟩
+    have hne : w ≠ 0 := ne_of_gt hw
+    unfold alignment
+    rw [ha, hb, neg_neg, div_self hne]
+    norm_num
+
+/-- non-vacuity: two unit boxes two units apart along x: right side of the first, left side of the second -/
+example : alignment ⟨2, 0, 0⟩ ⟨1, 0, 0⟩ ⟨-1, 0, 0⟩ 2 = 2 ∧ alignment ⟨2, 0, 0⟩ ⟨0, 1, 0⟩ ⟨-1, 0, 0⟩ 2 = 1 := by decide +kernel
 
 end CBV.C10
